@@ -12,6 +12,7 @@ import (
 
 	"golang.org/x/tools/go/ssa"
 
+	"decverif/internal/cdai"
 	"decverif/internal/model"
 	"decverif/internal/ob"
 )
@@ -749,7 +750,7 @@ func runScanShape(m *model.Model, s *ob.Set) {
 				if !ok || !isSuccessReturn(m, r) {
 					continue
 				}
-				if !m.InstrDominates(se, r) {
+				if !m.InstrDominates(se, r) && !m.DominatesBarInfeasible(se.Block(), r.Block()) {
 					bad = m.InstrPos(r) + ": a result is returned on a path that never called scanExponent"
 				}
 			}
@@ -791,7 +792,7 @@ func runScanShape(m *model.Model, s *ob.Set) {
 			continue
 		}
 		bo, ok := ifi.Cond.(*ssa.BinOp)
-		if !ok || bo.Op != token.EQL || bo.X != bval {
+		if !ok || bo.Op != token.EQL || !isValueOrJoinOf(bo.X, bval, 4) {
 			continue
 		}
 		k, ok := model.ConstInt(bo.Y)
@@ -807,10 +808,67 @@ func runScanShape(m *model.Model, s *ob.Set) {
 		caseBody[k] = b.Succs[0]
 		casePos[k] = m.InstrPos(ifi)
 	}
+	// the bits per digit taken from a helper of the base (exp2 += d * digitBits(b)) instead of a
+	// case per base: the helper is evaluated at each base by constant propagation
+	viaHelper := map[int64]bool{}
+	{
+		var helper *ssa.Function
+		for _, b := range scan.Blocks {
+			for _, in := range b.Instrs {
+				mul, ok := in.(*ssa.BinOp)
+				if !ok || mul.Op != token.MUL {
+					continue
+				}
+				for _, o := range []ssa.Value{mul.X, mul.Y} {
+					c, ok := stripConv(o).(*ssa.Call)
+					if !ok || len(c.Call.Args) != 1 || !isValueOrJoinOf(stripConv(c.Call.Args[0]), bval, 4) {
+						continue
+					}
+					if h := model.Unthunk(c.Call.StaticCallee()); h != nil && m.InDecimalPkg(h) && len(h.Blocks) > 0 {
+						helper = h
+					}
+				}
+			}
+		}
+		if helper != nil {
+			for k, w := range want {
+				if caseBody[k] != nil || k == 10 {
+					continue
+				}
+				it := cdai.New(m)
+				it.Budget = 5000
+				var outs []cdai.Outcome
+				func() {
+					defer func() {
+						if recover() != nil {
+							outs = nil
+						}
+					}()
+					outs = it.Run(helper, []cdai.Val{cdai.Int(k)}, cdai.NewState())
+				}()
+				cn := fmt.Sprintf("(*Decimal).scan/radix-%d", k)
+				if len(outs) == 1 && outs[0].Kind == "return" {
+					if v, ok := retInt(outs[0], 0); ok {
+						viaHelper[k] = true
+						s.Check(v == w, R, cn, pos, fmt.Sprintf("%d per fraction digit, through %s(%d)", w, helper.Name(), k), fmt.Sprintf("%s(%d) is %d; a digit in base %d stands for %d bit(s)", helper.Name(), k, v, k, w))
+						continue
+					}
+				}
+				viaHelper[k] = true
+				s.Note(R, cn, pos, fmt.Sprintf("the bits per digit come from %s, which does not fold to a constant at %d (not decided)", helper.Name(), k))
+			}
+		}
+	}
 	for k := range want {
-		if caseBody[k] == nil {
+		if caseBody[k] == nil && !viaHelper[k] {
 			s.Bad(R, fmt.Sprintf("(*Decimal).scan/radix-%d", k), pos, fmt.Sprintf("no case for mantissa base %d in the fraction-digit correction", k))
 		}
+	}
+	if len(viaHelper) > 0 {
+		if caseBody[10] != nil {
+			s.Note(R, "(*Decimal).scan/radix-10", pos, "the binary bases go through a helper; the decimal case is not read off in this shape (not decided)")
+		}
+		return
 	}
 	if len(caseBody) != len(want) {
 		return
@@ -1644,4 +1702,30 @@ func roundedTwice(m *model.Model, fn *ssa.Function, k int) string {
 		}
 	}
 	return bad
+}
+
+// isValueOrJoinOf: v is w, or a join (φ) all of whose incoming values are w, such joins, or
+// constants (the zero value a result variable held before it was assigned).
+func isValueOrJoinOf(v, w ssa.Value, depth int) bool {
+	if v == w {
+		return true
+	}
+	ph, ok := v.(*ssa.Phi)
+	if !ok || depth == 0 {
+		return false
+	}
+	some := false
+	for _, e := range ph.Edges {
+		if _, isC := e.(*ssa.Const); isC {
+			continue
+		}
+		if e == ssa.Value(ph) {
+			continue
+		}
+		if !isValueOrJoinOf(e, w, depth-1) {
+			return false
+		}
+		some = true
+	}
+	return some
 }
